@@ -552,7 +552,12 @@ class StmtMixin:
                     self.warn("unmodelled statement %s in %s" % (type(stmt).__name__, fr.func.qualname))
                     nxt.append(("next", s, None))
                     continue
-                nxt.extend(m(stmt, s, fr))
+                res_ = m(stmt, s, fr)
+                for k_, s_, v_ in res_:
+                    if k_ == "raise" and isinstance(v_, Raised) and not getattr(v_, "noted", False):
+                        v_.noted = True
+                        self.event(s_, fr, "raised", v_.node if v_.node is not None else stmt, (v_.exc, v_.msg))
+                nxt.extend(res_)
             cur = nxt
             lk = getattr(self.model, "loop_key", None)
             if lk is not None and len(cur) > 1:
